@@ -4,6 +4,7 @@ pub mod c01;
 pub mod c03;
 pub mod c04;
 pub mod c05;
+pub mod c07;
 pub mod c09;
 pub mod c09_gen;
 pub mod c10;
@@ -40,6 +41,7 @@ pub fn all() -> Vec<Box<dyn Property>> {
         Box::new(c03::C03),
         Box::new(c04::C04),
         Box::new(c05::C05),
+        Box::new(c07::C07),
         Box::new(c09::C09),
         Box::new(c10::C10),
         Box::new(c11::C11),
